@@ -542,13 +542,18 @@ def _sx_op(o):
     """The operation as the model sees it: `(ok O)`, or `(raise Cls)` when its constructor raises."""
     try:
         spec = prog_op_spec(o)
-        if isinstance(spec, list) and spec and spec[0] in bridge.OP_CTOR_FORMS:
-            return [A("ok"), bridge.op_to_sx(spec)]
+        if isinstance(spec, list) and spec and spec[0] == "@const":
+            spec = ["@const", bridge.value_to_spec(bridge.build_value(spec[1]))]
         return [A("ok"), bridge.op_to_sx(spec)]
     except ProgError:
         raise
     except Exception as e:  # noqa: BLE001
         return [A("raise"), A(exc_name(e))]
+
+
+def _sx_value(v):
+    """The constant as the plain value the model holds (std classes via `to_value()`)."""
+    return bridge.value_to_sx(bridge.value_to_spec(bridge.build_value(v)))
 
 
 def _sx_args(a):
@@ -579,10 +584,10 @@ def cmd_sx(c):
     if k == "load":
         src = c[3]
         if src[0] == "val":
-            return [a, c[1], c[2], [A("val"), bridge.value_to_sx(src[1]), _sx_opt(_sx_nr, src[2])]]
+            return [a, c[1], c[2], [A("val"), _sx_value(src[1]), _sx_opt(_sx_nr, src[2])]]
         return [a, c[1], c[2], [A("const"), _sx_nr(src[1])]]
     if k == "add_const":
-        return [a, c[1], c[2], bridge.value_to_sx(c[3]), _sx_opt(_sx_nr, c[4])]
+        return [a, c[1], c[2], _sx_value(c[3]), _sx_opt(_sx_nr, c[4])]
     if k == "add_alias_defn":
         return [a, c[1], c[2], c[3], bridge.spec_to_sx(c[4]), _sx_opt(_sx_nr, c[5])]
     if k == "add_alias_decl":
